@@ -263,6 +263,31 @@ func runC05(c *core.Ctx) {
 		}
 		return kvs
 	}
+	// a numeric member shadowed by a case variant of its name carrying ANOTHER value (struct decoding matches names
+	// case-insensitively, the last match wins; a lookup by exact name sees the other one): version, touch policy, usage
+	for i, n := 0, c.N(40, 1200); i < n; i++ {
+		kvs := baseKVs()
+		field := core.Pick(r, "ver", "ver", "touchPolicy", "usage")
+		var val string
+		switch field {
+		case "ver":
+			val = core.Pick(r, "0", "2", "7", "65535", "65536", "-1", "1")
+		case "touchPolicy":
+			val = core.Pick(r, "0", "1", "2", "3", "4", "100", "-1")
+		default:
+			val = core.Pick(r, "0", "1", "2", "-1")
+		}
+		variant := kv{caseVariants(r, field), val}
+		if variant.k == field {
+			variant.k = strings.ToUpper(field)
+		}
+		pos := len(kvs) // after the exact member: the variant wins in the struct
+		if r.Intn(3) == 0 {
+			pos = r.Intn(len(kvs) + 1)
+		}
+		kvs = append(kvs[:pos:pos], append([]kv{variant}, kvs[pos:]...)...)
+		emitDecode("numeric-member-shadowed-by-case-variant", renderObj(kvs))
+	}
 	for i, n := 0, c.N(120, 6000); i < n; i++ {
 		for fi := range names {
 			kvs := baseKVs()
